@@ -338,7 +338,12 @@ def run(ctx):
     # where the file is positioned: a SELECT before every third command, one command of every logging class, also inside EXEC
     for i in range(2 if ctx.quick else 12):
         history(ctx, 100 + i, DbHopWrites, 300 if ctx.quick else 800, dbs=True, txn=(i % 2 == 1), sel_rate=0.3)
-    F = forms.FORMS
+    # (reads of a consumer's own history are left out here: their listed deviation, xreadgroup_history_redelivers, leaves the live
+    #  server in a state whose replay the redo relation cannot follow; C16 is where that deviation is exercised)
+    #  an XCLAIM with an idle threshold is a time-dependent command — whether it claims depends on the clock — which the redo relation
+    #  rightly calls non-replayable; the catalogue's form of it is left out as well, thresholds of 0 stay)
+    F = [a for a in forms.FORMS if not (a[0].upper() == b'XREADGROUP' and a[-1] != b'>')
+         and not (a[0].upper() == b'XCLAIM' and len(a) > 4 and a[4] != b'0')]
     if ctx.quick:
         forms_history(ctx, 'forms-direct', 'direct', F[ctx.seed % 2::2])
         forms_history(ctx, 'forms-multi', 'multi', F[(ctx.seed + 1) % 2::2])
